@@ -120,7 +120,7 @@ macro "chan_simple_lemmas " ns:ident " : " I:term " => " hs:ident* : command => 
       | "slog" => `(theorem $(n "slog") {s : St} {fd : Nat} {c : String} (h : $I s) : $I (s.slog fd c) := h)
       | "ofault" => `(theorem $(n "ofault") {s : St} {e : String} (h : $I s) : $I (s.ofault e) := h)
       | "mfault" => `(theorem $(n "mfault") {s : St} {e : String} (h : $I s) : $I (s.mfault e) := h)
-      | "oof" => `(theorem $(n "oof") {s : St} (h : $I s) : $I s.oof.1 := h)
+      | "oofSt" => `(theorem $(n "oof") {s : St} (h : $I s) : $I s.oof.1 := h)
       | "setQuery" => `(theorem $(n "setQuery") {s : St} {q : Query} (h : $I s) : $I (s.setQuery q) := h)
       | "setConn" => `(theorem $(n "setConn") {s : St} {c : Conn} (h : $I s) : $I (s.setConn c) := h)
       | "setServer" => `(theorem $(n "setServer") {s : St} {v : Server} (h : $I s) : $I (s.setServer v) := h)
@@ -179,7 +179,7 @@ end Frame
 section
 variable {c0 : Cfg} {n0 : Nat} {ids0 : List Nat}
 chan_simple_lemmas Frame : (Frame c0 n0 ids0) =>
-  emit slog ofault mfault oof setQuery setConn setSock modQuery modConn modSock modClient cacheExpire
+  emit slog ofault mfault oofSt setQuery setConn setSock modQuery modConn modSock modClient cacheExpire
 end
 
 /-- strip one layer of structure update that leaves `cfg`, `now`, `servers` alone -/
@@ -234,7 +234,10 @@ open Lean in
     (`bodyXxx_<sfx>`), of `execBody` and of `exec`.  `leaf` is the tactic run on every path of a body (it may refer to
     `hgo : GoInv I go` and `h : I s`); bodies listed after `except` are expected to have been proved by hand under
     the same names.  `hoof` proves `∀ s, I s → I s.oof.1`. -/
-macro "chan_invariant " sfx:ident " : " I:term " oof " hoof:term " leaf " leaf:tacticSeq " except " ex:ident* : command => do
+macro "chan_invariant " sfx:ident " : " I:term " oofBy " hoof:term " leafBy " leaf:tacticSeq " exceptBodies " ex:ident* : command => do
+  -- `exceptBodies … blocksOnly` generates only the `sq*` block lemmas; `… afterBlocks` everything else
+  let blocksOnly := ex.any (fun i => i.getId.toString == "blocksOnly")
+  let afterBlocks := ex.any (fun i => i.getId.toString == "afterBlocks")
   let sfxS := sfx.getId.toString
   let nm (b : String) : Ident := mkIdent (Name.mkSimple (b ++ "_" ++ sfxS))
   let hgo := mkIdent `hgo
@@ -258,6 +261,8 @@ macro "chan_invariant " sfx:ident " : " I:term " oof " hoof:term " leaf " leaf:t
     ("bodyCancel", []), ("bodyCancelLoop", ["a1", "a2"]), ("bodyDestroy", [])]
   for (b, args) in bodies do
     if skip b then continue
+    if blocksOnly && !(b.startsWith "sq") then continue
+    if afterBlocks && b.startsWith "sq" then continue
     let bid := mkIdent (Name.mkSimple b)
     let c ← match b with
       | "sqChoose" => `(theorem $(nm b) {$go : Call → St → St × Ret} ($hgo : GoInv $I $go) (a1 : Option Nat) ($s : St)
@@ -290,6 +295,7 @@ macro "chan_invariant " sfx:ident " : " I:term " oof " hoof:term " leaf " leaf:t
             $I ($bid $go $argIds* $s).1 := by unfold $bid:ident; chan_paths; all_goals ($leaf))
     cmds := cmds.push c
   -- execBody and exec
+  if blocksOnly then return ⟨mkNullNode cmds⟩
   let alts : Array (TSyntax `Lean.Parser.Tactic.tacticSeq) ←
     (bodies.filter (fun p => p.1.startsWith "body")).toArray.mapM fun (b, _) =>
       `(tacticSeq| apply $(nm b) $hgo; exact $h)
